@@ -9,6 +9,25 @@ From PP Require Import Kern.RBool Gen.KThermNp Gen.KThermNb Gen.KThermExpr Gen.K
 Import ListNotations.
 Open Scope R_scope.
 
+(* ---- 0. which pit / component-array column each positional input of the generated hook kernels is *)
+Theorem hook_inputs_are_the_documented_columns :
+  hook_kernel_inputs =
+  [("hc_bh", ["bp_MDOTINIT"; "bp_QEXT"; "bp_TOUTINIT"; "ca_DELTAT"; "ca_MODE"; "fl_cp"; "np_from_TINIT"]);
+   ("hc_ah", ["bp_MDOTINIT"; "bp_QEXT"; "bp_TOUTINIT"; "ca_MODE"; "fl_cp"; "np_from_TINIT"]);
+   ("hc_bt", ["bp_MDOTINIT"; "bp_QEXT"; "bp_TOUTINIT"; "ca_DELTAT"; "ca_MODE"; "ca_TRETURN"; "fl_cp"; "np_from_TINIT"]);
+   ("hc_at", ["bp_JAC_DERIV_DT"; "bp_JAC_DERIV_DTOUT"; "bp_LOAD_VEC_BRANCHES_T"; "bp_QEXT"; "ca_MODE"]);
+   ("hc_res", ["bp_QEXT"; "bp_TOUTINIT"; "np_from_TINIT"]); ("cp_at", []);
+   ("cp_res", ["bp_MDOTINIT"; "bp_TOUTINIT"; "fl_cp"; "np_from_TINIT"])]%string /\
+  therm_kernel_inputs =
+  [("therm_np", ["amb"; "bp_ALPHA"; "bp_DO"; "bp_LENGTH"; "bp_MDOTINIT"; "bp_QEXT"; "bp_TEXT"; "bp_TL"; "cp_b"; "cp_n";
+                 "nodes_flow"; "t_init_i"; "t_init_i1"; "t_init_n"; "t_init_nt"]);
+   ("therm_nb", ["amb"; "bp_ALPHA"; "bp_DO"; "bp_LENGTH"; "bp_MDOTINIT"; "bp_QEXT"; "bp_TEXT"; "bp_TL"; "cp_b"; "cp_n";
+                 "nodes_flow"; "t_init_i"; "t_init_i1"; "t_init_n"; "t_init_nt"]);
+   ("thermexpr", ["bp_TOUTINIT"; "fl_cp"; "np_from_TINIT"; "np_to_TINIT"]);
+   ("branch_cp", ["bp_TOUTINIT"; "fl_cp"; "np_from_TINIT"])]%string.
+Proof. split; reflexivity. Qed.
+Print Assumptions hook_inputs_are_the_documented_columns.
+
 (* ---- 1. duty of a zero-length / loss-free branch (exchanger, consumer): the generated thermal residual
         vanishes iff Q = |m| * mean c_p * (T_in - T_out), c_p mean = get_branch_cp *)
 Theorem exchanger_duty_numpy : forall amb al d L m Q Text cpn nf tin tout tn tnt (cp : R -> R),
